@@ -839,8 +839,79 @@ func circumApprox(q [3]P) (mx, my, r float64) {
 	return q[0][0] + ux, q[0][1] + uy, math.Hypot(ux, uy)
 }
 
+// ---------------------------------------------------------------- concurrent callers
+
+// ConcCase: several independent inputs triangulated at the same time on their own goroutines.
+// BowyerWatson is a function of its argument; every call must satisfy the property whatever else
+// the process is doing (node graphs evaluate producers concurrently).
+type ConcCase struct {
+	Cases  []Case
+	Rounds int
+}
+
+func genConc(t *rapid.T) ConcCase {
+	k := rapid.IntRange(2, 6).Draw(t, "callers")
+	c := ConcCase{Rounds: rapid.IntRange(2, 6).Draw(t, "rounds")}
+	for i := 0; i < k; i++ {
+		c.Cases = append(c.Cases, genCase(t))
+	}
+	return c
+}
+
+func runConc(c ConcCase, o *vh.Obs) *vh.Failure {
+	if len(c.Cases) < 2 || len(c.Cases) > 16 || c.Rounds < 1 || c.Rounds > 64 {
+		o.Class("skipped/outside-domain")
+		return nil
+	}
+	real := 0
+	for i, k := range c.Cases { // each input on its own first: a failure here is not about concurrency
+		sub := &vh.Obs{}
+		if f := runCase(k, sub); f != nil {
+			f.Msg = fmt.Sprintf("input %d, called alone: %s", i, f.Msg)
+			return f
+		}
+		if len(k.Pts) >= 3 && generalPosition(k.Pts) {
+			real++
+		}
+	}
+	o.Class(fmt.Sprintf("concurrent/callers=%d", len(c.Cases)))
+	if real >= 2 {
+		o.NonTrivial()
+	}
+	fails := make([]*vh.Failure, len(c.Cases))
+	start := make(chan struct{})
+	done := make(chan int, len(c.Cases))
+	for i := range c.Cases {
+		go func(i int) {
+			defer func() {
+				if r := recover(); r != nil {
+					fails[i] = vh.Failf("concurrent/panic", "input %d of %d concurrent callers: BowyerWatson panicked: %v (every input passes when called alone)", i, len(c.Cases), r)
+				}
+				done <- i
+			}()
+			<-start
+			for r := 0; r < c.Rounds && fails[i] == nil; r++ {
+				if f := runCase(c.Cases[i], &vh.Obs{}); f != nil {
+					fails[i] = vh.Failf("concurrent/"+f.Sig, "input %d of %d concurrent callers, round %d (every input passes when called alone): %s", i, len(c.Cases), r, f.Msg)
+				}
+			}
+		}(i)
+	}
+	close(start)
+	for range c.Cases {
+		<-done
+	}
+	for _, f := range fails {
+		if f != nil {
+			return f
+		}
+	}
+	return nil
+}
+
 func TestC20(t *testing.T) {
 	vh.Drive(t, vh.Spec[Case]{Name: "delaunay", Quick: 32000, Thorough: 1000000, Gen: genCase, Run: runCase})
+	vh.Drive(t, vh.Spec[ConcCase]{Name: "concurrent-callers", Quick: 1600, Thorough: 50000, Gen: genConc, Run: runConc, Repeat: 20})
 }
 
 // TestPredicateFilters cross-checks the filtered predicates against the pure rational ones on
